@@ -286,8 +286,12 @@ func zvC27Enumerate(thorough bool, emit func(c *zvC27Case, stream []byte)) {
 		s.Build(z)
 		mk := func(mut string) *zvC27Case { return &zvC27Case{Seed: s.Name, Mut: mut, MsgType: -1} }
 		emit(mk("none"), z.B)
-		// every truncation
-		for n := 0; n < len(z.B); n++ {
+		// every truncation (seeds that are run as they are: only inside their last message)
+		first := 0
+		if !s.Mutate {
+			first = z.Marks[len(z.Marks)-1].Off + 1
+		}
+		for n := first; n < len(z.B); n++ {
 			c := mk("trunc")
 			c.Off = n
 			c.MsgType = zvC27MsgTypeAt(z, n)
@@ -508,7 +512,7 @@ var (
 	zvC27WatchFn   func()
 	zvC27WatchTmr  *time.Timer
 	zvC27ChildSeq  int
-	zvC27ChildVMKB = 2 << 20 // ulimit -v of a child: 2 GiB
+	zvC27ChildVMKB = 1280 << 10 // ulimit -v of a child: 1.25 GiB (the test binary itself needs 0.6-1 GiB of address space)
 )
 
 const zvC27WatchSecs = 60
@@ -519,6 +523,12 @@ func zvC27Watch(d time.Duration, onExpire func()) {
 	zvC27WatchMu.Lock()
 	defer zvC27WatchMu.Unlock()
 	zvC27WatchFn = onExpire
+	if onExpire == nil {
+		if zvC27WatchTmr != nil {
+			zvC27WatchTmr.Stop()
+		}
+		return
+	}
 	if zvC27WatchTmr == nil {
 		zvC27WatchTmr = time.AfterFunc(d, func() {
 			zvC27WatchMu.Lock()
@@ -533,23 +543,53 @@ func zvC27Watch(d time.Duration, onExpire func()) {
 	zvC27WatchTmr.Reset(d)
 }
 
-func zvC27RunChild(c *zvC27Case) zvC27Result {
+type zvC27ChildLine struct {
+	I   int         `json:"i"`
+	Res zvC27Result `json:"res"`
+}
+
+func zvC27CrashLine(txt string) string {
+	for _, ln := range strings.Split(txt, "\n") {
+		if strings.HasPrefix(ln, "fatal error:") || strings.HasPrefix(ln, "runtime:") || strings.HasPrefix(ln, "panic:") {
+			return ln
+		}
+	}
+	return ""
+}
+
+// zvC27RunBatch executes the cases in memory-limited worker processes of this
+// test binary (TestZvC27Child under `ulimit -v`). A worker journals the index
+// of the case it is about to run; when it dies, the death is attributed to that
+// case and a new worker continues behind it. A result or an out-of-memory abort
+// is a verdict; a hang or an unexplained death must repeat three times to
+// count, anything else is inconclusive.
+func zvC27RunBatch(cases []*zvC27Case) []zvC27Result {
+	n := len(cases)
+	results := make([]zvC27Result, n)
+	if n == 0 {
+		return results
+	}
+	fail := func(msg string) []zvC27Result {
+		for i := range results {
+			results[i] = zvC27Result{Crash: "harness", CrashText: msg}
+		}
+		return results
+	}
 	dir := filepath.Dir(os.Getenv("VERIF_OUT"))
 	zvC27ChildSeq++
 	base := filepath.Join(dir, fmt.Sprintf("zvc27-%d-%d", os.Getpid(), zvC27ChildSeq))
-	in, out := base+".in.json", base+".out.json"
+	in, out, cur := base+".in.json", base+".out.jsonl", base+".cur"
 	defer os.Remove(in)
 	defer os.Remove(out)
-	j, _ := json.Marshal(c)
+	defer os.Remove(cur)
+	j, _ := json.Marshal(cases)
 	if err := os.WriteFile(in, j, 0o644); err != nil {
-		return zvC27Result{Crash: "harness", CrashText: err.Error()}
+		return fail(err.Error())
 	}
 	exe, err := os.Executable()
 	if err != nil {
 		exe = os.Args[0]
 	}
-	sh := fmt.Sprintf("ulimit -v %d; exec %q -test.run '^TestZvC27Child$' -test.count 1 -test.timeout %ds", zvC27ChildVMKB, exe, 2*zvC27WatchSecs+30)
-	cmd := exec.Command("/bin/sh", "-c", sh)
 	var env []string
 	for _, e := range os.Environ() {
 		if strings.HasPrefix(e, "VERIF_OUT=") || strings.HasPrefix(e, "VERIF_REPLAY=") || strings.HasPrefix(e, "ZVC27_") {
@@ -557,39 +597,82 @@ func zvC27RunChild(c *zvC27Case) zvC27Result {
 		}
 		env = append(env, e)
 	}
-	cmd.Env = append(env, "ZVC27_IN="+in, "ZVC27_OUT="+out)
-	var buf bytes.Buffer
-	cmd.Stdout, cmd.Stderr = &buf, &buf
-	runErr := cmd.Run()
-	if b, err := os.ReadFile(out); err == nil {
-		var res zvC27Result
-		if json.Unmarshal(b, &res) == nil {
-			res.Child = true
-			return res
+	done := make([]bool, n)
+	tries := make([]int, n)
+	texts := make([][]string, n)
+	from, spawns := 0, 0
+	for from < n {
+		os.Remove(out)
+		os.Remove(cur)
+		sh := fmt.Sprintf("ulimit -v %d; exec %q -test.run '^TestZvC27Child$' -test.count 1 -test.timeout 0", zvC27ChildVMKB, exe)
+		cmd := exec.Command("/bin/sh", "-c", sh)
+		cmd.Env = append(append([]string(nil), env...), "ZVC27_IN="+in, "ZVC27_OUT="+out, "ZVC27_CUR="+cur, fmt.Sprintf("ZVC27_FROM=%d", from))
+		var buf bytes.Buffer
+		cmd.Stdout, cmd.Stderr = &buf, &buf
+		runErr := cmd.Run()
+		spawns++
+		if spawns > 4*n+8 {
+			return fail("worker processes keep dying without progress: " + buf.String())
 		}
-	}
-	txt := buf.String()
-	res := zvC27Result{Child: true, Crash: "other"}
-	if strings.Contains(txt, "out of memory") || strings.Contains(txt, "cannot allocate memory") {
-		res.Crash = "oom"
-	}
-	// keep the first line of the runtime's message
-	for _, ln := range strings.Split(txt, "\n") {
-		if strings.HasPrefix(ln, "fatal error:") || strings.HasPrefix(ln, "runtime:") || strings.HasPrefix(ln, "panic:") {
-			res.CrashText = ln
+		if b, err := os.ReadFile(out); err == nil {
+			for _, ln := range bytes.Split(b, []byte("\n")) {
+				var l zvC27ChildLine
+				if len(ln) == 0 || json.Unmarshal(ln, &l) != nil || l.I < from || l.I >= n {
+					continue
+				}
+				l.Res.Child = true
+				if l.Res.Hang {
+					tries[l.I]++
+					if tries[l.I] < 3 {
+						continue // must repeat
+					}
+				}
+				results[l.I], done[l.I] = l.Res, true
+			}
+		}
+		next := from
+		for next < n && done[next] {
+			next++
+		}
+		if next == n {
 			break
 		}
+		from = next
+		if tries[next] > 0 && tries[next] < 3 && texts[next] == nil {
+			continue // a hang that has to be confirmed
+		}
+		// the worker died while running case `next`
+		txt := buf.String()
+		if strings.Contains(txt, "out of memory") || strings.Contains(txt, "cannot allocate memory") {
+			results[next], done[next] = zvC27Result{Child: true, Crash: "oom", CrashText: zvC27CrashLine(txt)}, true
+			from = next + 1
+			continue
+		}
+		line := zvC27CrashLine(txt)
+		if line == "" {
+			line = fmt.Sprintf("worker exited with %v and no result", runErr)
+		}
+		texts[next] = append(texts[next], line)
+		if len(texts[next]) < 3 {
+			continue
+		}
+		res := zvC27Result{Child: true, Crash: "other", CrashText: line}
+		for _, t := range texts[next] {
+			if t != line || strings.Contains(t, "timed out") || strings.Contains(t, "killed") {
+				res.Crash = "inconclusive"
+			}
+		}
+		results[next], done[next] = res, true
+		from = next + 1
 	}
-	if res.CrashText == "" {
-		res.CrashText = fmt.Sprintf("child exited with %v and no result", runErr)
-	}
-	return res
+	return results
 }
 
-// TestZvC27Child executes one case inside a memory-limited child process.
+// TestZvC27Child is the worker: it executes the cases [ZVC27_FROM, ...) of the
+// batch file inside a memory-limited process.
 func TestZvC27Child(t *testing.T) {
-	in, out := os.Getenv("ZVC27_IN"), os.Getenv("ZVC27_OUT")
-	if in == "" || out == "" {
+	in, out, cur := os.Getenv("ZVC27_IN"), os.Getenv("ZVC27_OUT"), os.Getenv("ZVC27_CUR")
+	if in == "" || out == "" || cur == "" {
 		t.Skip("helper of TestVerifC27")
 	}
 	zvBmpQuiet()
@@ -597,25 +680,37 @@ func TestZvC27Child(t *testing.T) {
 	if err != nil {
 		t.Fatal(err)
 	}
-	var c zvC27Case
-	if err := json.Unmarshal(b, &c); err != nil {
+	var cases []zvC27Case
+	if err := json.Unmarshal(b, &cases); err != nil {
 		t.Fatal(err)
 	}
-	stream, err := hex.DecodeString(c.Hex)
+	from := 0
+	fmt.Sscan(os.Getenv("ZVC27_FROM"), &from)
+	f, err := os.OpenFile(out, os.O_CREATE|os.O_WRONLY|os.O_APPEND, 0o644)
 	if err != nil {
 		t.Fatal(err)
 	}
-	write := func(res zvC27Result) {
-		j, _ := json.Marshal(res)
-		os.WriteFile(out+".tmp", j, 0o644)
-		os.Rename(out+".tmp", out)
+	defer f.Close()
+	write := func(i int, res zvC27Result) {
+		j, _ := json.Marshal(zvC27ChildLine{i, res})
+		f.Write(append(j, '\n'))
 	}
-	zvC27Watch(zvC27WatchSecs*time.Second, func() {
-		write(zvC27Result{Hang: true})
-		os.Exit(0)
-	})
 	zvC27Exec(zvC27FollowStream, nil) // one-time initialisation outside the measurement
-	write(zvC27Exec(stream, nil))
+	for i := from; i < len(cases); i++ {
+		stream, err := hex.DecodeString(cases[i].Hex)
+		if err != nil {
+			t.Fatal(err)
+		}
+		os.WriteFile(cur, []byte(fmt.Sprint(i)), 0o644)
+		i := i
+		zvC27Watch(zvC27WatchSecs*time.Second, func() {
+			write(i, zvC27Result{Hang: true})
+			os.Exit(0)
+		})
+		res := zvC27Exec(stream, nil)
+		zvC27Watch(0, nil)
+		write(i, res)
+	}
 }
 
 // ---------------------------------------------------------------------------
@@ -624,23 +719,27 @@ func TestZvC27Child(t *testing.T) {
 
 const zvC27ChildAbove = 64 << 20
 
-func zvC27One(r *vh.Run, c *zvC27Case, stream []byte, marks []int) {
-	ref := zvC27Prescreen(stream)
-	var res zvC27Result
-	inChild := ref.Adv > zvC27ChildAbove
-	if inChild {
-		zvC27Watch((2*zvC27WatchSecs+60)*time.Second, func() { zvC27Expired(r, c) })
-		res = zvC27RunChild(c)
-		r.Count("child_runs", 1)
-	} else {
-		zvC27Watch(zvC27WatchSecs*time.Second, func() { zvC27Expired(r, c) })
-		res = zvC27Exec(stream, marks)
-	}
+// zvC27InProcess executes one case in this process under the wedge watchdog.
+func zvC27InProcess(r *vh.Run, c *zvC27Case, stream []byte, marks []int) zvC27Result {
+	zvC27Watch(zvC27WatchSecs*time.Second, func() { zvC27Expired(r, c) })
+	res := zvC27Exec(stream, marks)
+	zvC27Watch(0, nil)
+	return res
+}
+
+// zvC27Judge evaluates the oracle on the result of one case.
+func zvC27Judge(r *vh.Run, c *zvC27Case, stream []byte, ref zvC27Ref, res zvC27Result) {
 	r.Eval(1)
+	if res.Child {
+		r.Count("child_runs", 1)
+	}
 	mt := fmt.Sprint(c.MsgType)
 	switch {
 	case res.Crash == "harness":
-		r.Fatalf("cannot run the child process: %s", res.CrashText)
+		r.Fatalf("cannot run the worker process: %s", res.CrashText)
+	case res.Crash == "inconclusive":
+		r.Cap("a memory-limited worker run gave no verdict (timeouts without result; machine overloaded?)")
+		return
 	case res.Crash == "oom":
 		r.Violation(vh.Sig("clause", "alloc", "kind", "out_of_memory", "cause", ref.Cause), c,
 			"receiver process aborted (%s) under ulimit -v %d KiB while serving %d bytes; the stream advertises %d bytes through %s",
@@ -650,7 +749,7 @@ func zvC27One(r *vh.Run, c *zvC27Case, stream []byte, marks []int) {
 		r.Violation(vh.Sig("clause", "crash", "cause", ref.Cause), c, "receiver process died while serving %d bytes: %s", len(stream), res.CrashText)
 		return
 	case res.Hang:
-		r.Violation(vh.Sig("clause", "wedge", "kind", "no_return"), c, "handleConnection did not return within %d s after the stream had ended", zvC27WatchSecs)
+		r.Violation(vh.Sig("clause", "wedge", "kind", "no_return"), c, "handleConnection did not return within %d s after the stream had ended (3 isolated runs agree)", zvC27WatchSecs)
 		return
 	}
 	if p := res.Panic; p != nil {
@@ -686,16 +785,29 @@ func zvC27One(r *vh.Run, c *zvC27Case, stream []byte, marks []int) {
 	}
 }
 
-// zvC27Expired runs on the watchdog goroutine: the main goroutine is stuck
-// inside the receiver. Report and end the shard.
+// zvC27Expired runs on the watchdog goroutine: the main goroutine has been
+// inside the receiver for zvC27WatchSecs. The case is re-run in isolation
+// (child processes, three times): only a hang that reproduces there is a
+// violation; otherwise the expiry is recorded as a cap (slow machine).
 func zvC27Expired(r *vh.Run, c *zvC27Case) {
-	r.Violation(vh.Sig("clause", "wedge", "kind", "no_return"), c, "handleConnection did not return within %d s after the stream had ended", zvC27WatchSecs)
-	r.Cap("shard stopped by the wedge watchdog")
-	for _, k := range zvC27Required {
-		r.Count(k, 1)
+	res := zvC27RunBatch([]*zvC27Case{c})[0]
+	stop := func(why string) {
+		r.Cap(why)
+		for _, k := range zvC27Required {
+			r.Count(k, 1)
+		}
+		r.Finish()
+		os.Exit(0)
 	}
-	r.Finish()
-	os.Exit(0)
+	if !res.Hang {
+		r.Cap("the wedge watchdog expired for a case that finishes in isolation (machine overloaded?)")
+		zvC27Watch(10*zvC27WatchSecs*time.Second, func() {
+			stop("shard stopped: a case did not finish in-process although it finishes in isolation")
+		})
+		return
+	}
+	r.Violation(vh.Sig("clause", "wedge", "kind", "no_return"), c, "handleConnection did not return within %d s after the stream had ended (3 isolated runs agree)", zvC27WatchSecs)
+	stop("shard stopped by the wedge watchdog")
 }
 
 var zvC27Required = []string{"returned", "panic_free_mutants", "followup_ok", "seed_installs_routes", "field_cases", "byte_cases", "trunc_cases", "advertises_over_1MiB"}
@@ -720,7 +832,12 @@ func TestVerifC27(t *testing.T) {
 			r.Fatalf("bad stream in replay case: %v", err)
 		}
 		zvC27Exec(zvC27FollowStream, nil)
-		zvC27One(r, &c, stream, nil)
+		ref := zvC27Prescreen(stream)
+		if ref.Adv > zvC27ChildAbove {
+			zvC27Judge(r, &c, stream, ref, zvC27RunBatch([]*zvC27Case{&c})[0])
+		} else {
+			zvC27Judge(r, &c, stream, ref, zvC27InProcess(r, &c, stream, nil))
+		}
 		for _, k := range zvC27Required {
 			r.Count(k, 1)
 		}
@@ -747,27 +864,11 @@ func TestVerifC27(t *testing.T) {
 		seedMarks[s.Name] = append(m, len(z.B))
 	}
 	seen := map[[32]byte]struct{}{}
-	idx := 0
-	sampled := 0
+	idx, mine, sampled := 0, 0, 0
 	capped := false
-	zvC27Enumerate(r.Thorough(), func(c *zvC27Case, stream []byte) {
-		idx++
-		if capped || !r.Mine(idx) {
-			return
-		}
-		if idx%64 == 0 && r.OutOfBudget() {
-			r.Cap("time budget: not all mutants executed")
-			capped = true
-			return
-		}
-		c.Hex = hex.EncodeToString(stream)
-		os.WriteFile(journal, []byte(fmt.Sprintf("%d %s %s off=%d val=%d\n", idx, c.Seed, c.Mut, c.Off, c.Val)), 0o644)
-		var marks []int
-		if c.Mut == "none" {
-			marks = seedMarks[c.Seed]
-		}
+	account := func(c *zvC27Case, stream []byte, ref zvC27Ref, res zvC27Result) {
 		before := r.NViolations()
-		zvC27One(r, c, stream, marks)
+		zvC27Judge(r, c, stream, ref, res)
 		h := sha256.Sum256(stream)
 		if _, dup := seen[h]; !dup {
 			seen[h] = struct{}{}
@@ -788,7 +889,48 @@ func TestVerifC27(t *testing.T) {
 			sampled++
 			r.Sample(c)
 		}
+	}
+	// streams that advertise a huge allocation are collected and run in worker processes afterwards
+	type deferred struct {
+		c      *zvC27Case
+		stream []byte
+		ref    zvC27Ref
+	}
+	var later []deferred
+	zvC27Enumerate(r.Thorough(), func(c *zvC27Case, stream []byte) {
+		idx++
+		if capped || !r.Mine(idx) {
+			return
+		}
+		mine++
+		if mine%64 == 0 && r.OutOfBudget() {
+			r.Cap("time budget: not all mutants executed")
+			capped = true
+			return
+		}
+		c.Hex = hex.EncodeToString(stream)
+		ref := zvC27Prescreen(stream)
+		if ref.Adv > zvC27ChildAbove {
+			later = append(later, deferred{c, append([]byte(nil), stream...), ref})
+			return
+		}
+		os.WriteFile(journal, []byte(fmt.Sprintf("%d %s %s off=%d val=%d\n", idx, c.Seed, c.Mut, c.Off, c.Val)), 0o644)
+		var marks []int
+		if c.Mut == "none" {
+			marks = seedMarks[c.Seed]
+		}
+		account(c, stream, ref, zvC27InProcess(r, c, stream, marks))
 	})
+	if len(later) > 0 {
+		cs := make([]*zvC27Case, len(later))
+		for i := range later {
+			cs[i] = later[i].c
+		}
+		os.WriteFile(journal, []byte(fmt.Sprintf("worker batch of %d cases\n", len(cs))), 0o644)
+		for i, res := range zvC27RunBatch(cs) {
+			account(later[i].c, later[i].stream, later[i].ref, res)
+		}
+	}
 	r.Extra("cases_total", idx)
 	ks := make([]string, 0)
 	for _, s := range zvC27Seeds() {
